@@ -12,12 +12,69 @@ ENGINES = {
 
 # id -> (engine, technique, level text, level note, design ref)
 CHECKS = {
+    'C01': ('E1', 'bounded-exhaustive enumeration of database shapes x configuration grid vs posting-list reference',
+            'Every scheme x every point of the supported configuration grid x every integer partition of every N<=8 (12 thorough) in both keyword '
+            'orders, plus boundary profiles around every block/level/2^k/index-width/case-split length: KeyGen, EDBSetup and a search of EVERY '
+            'stored keyword run on the real code; result compared with DB[w]. Exhaustive over shapes inside the bounds.',
+            'One DRBG value assignment per shape and seed; shapes above the bounds are not covered.', 'DESIGN.md 4/C01'),
+    'C02': ('E1', 'bounded-exhaustive enumeration of databases x adversarially close absent keywords',
+            'All partitions of N<=6 (9) per scheme/configuration point x the absent-keyword family (prefix, suffix, +byte, +NUL, bit flips, '
+            'case swap, concatenations, random, maximal length): search must return empty and not raise.',
+            'Absent keywords are derived from at most 3 stored keywords per database; value-level collisions assumed negligible.', 'DESIGN.md 4/C02'),
+    'C03': ('E1', 'bounded-exhaustive enumeration through three separate scheme instances joined only by wire bytes',
+            'Per scheme/configuration point/partition: client, JSON-rebuilt server and JSON-rebuilt reloaded client exchange only serialized '
+            'key, EDB, token and result; content and round-trip equality checked for every keyword, present and absent.',
+            'pickle is trusted as a container format; N<=5 (8).', 'DESIGN.md 4/C03'),
+    'C04': ('E1', 'bounded-exhaustive enumeration + byte-level inspection of serialized index and tokens',
+            'All partitions of N<=6 (9) x 2 content variants (distinct ids / one id under every keyword): substring absence of every keyword '
+            'and identifier, pairwise-distinct ciphertext entries inside one index, disjoint entries across two setups of the same (K, DB).',
+            'Decided for DRBG values only; ciphertext entries located by position per scheme.', 'DESIGN.md 4/C04'),
+    'C05': ('E1', 'exhaustive enumeration of all list-length profiles, grouped by public size parameter, generic shape walk',
+            'ALL partitions of every N<=12 (16) per scheme/configuration point, two content assignments each, grouped by pi_S: the generic '
+            'shape of the unpickled index must be one per class; every padded table has one key length and one value length.',
+            'Shape = container sizes and byte-string lengths (what the property defines); N above the bound only at 2^k landmarks.', 'DESIGN.md 4/C05'),
+    'C06': ('E1', 'exhaustive enumeration of keyword-order permutations; two-setup placement comparison with recording lists',
+            'Label tables: all permutations (<=24) of every partition of N<=6 (8) with <=4 keywords under one key - sortedness and equality on '
+            'common labels. Arrays: all profiles with 12..24 array-resident blocks (capped in quick), two setups, slots read by Search must differ.',
+            'Chance coincidence <= 1/12! per array case.', 'DESIGN.md 4/C06'),
+    'C07': ('E2', 'explicit-state search over search histories (BFS on canonical state + all sequences to depth k, no dedup)',
+            'Per scheme x 2 configurations x 3 databases: BFS over (EDB bytes, token bytes, config fingerprint) reaches a fixpoint with one '
+            'state; all 5^k search sequences k<=4 (6) executed without dedup; inputs (DB, cfg dict, key bytes, DEFAULT_CONFIG) compared with deep copies.',
+            'Hidden state outside EDB/token/scheme objects (e.g. module globals) would only be seen through changed answers.', 'DESIGN.md 4/C07'),
+    'C08': ('E1', 'bounded-exhaustive enumeration of configuration dictionaries (single + pairwise departures, deletions, names)',
+            'Every single and pairwise departure over the full value domain of every field, every primitive name, every single-field deletion, '
+            'x 5 valid databases: refused loudly or every answer correct; a needed-but-missing field must be refused at build time.',
+            'Triples only for length fields (thorough); databases valid for the configuration only.', 'DESIGN.md 4/C08'),
+    'C14': ('E1', 'exhaustive enumeration of message lengths x key sizes vs independent AES-CBC/PKCS7 computation',
+            'All message lengths 0..80 (0..300 + long) x 3 key sizes x 3 keys; declared-length variants; all wrong key lengths 0..40; constructor domain.',
+            'cryptography\'s AES is the trusted reference; keys are DRBG values.', 'DESIGN.md 4/C14'),
+    'C15': ('E1', 'exhaustive enumeration of the whole domain {0,1}^n (bijection) + bounded widths',
+            'BitwiseFFX: all 2^n inputs for n=2..11 (13) under 3 keys - bijection and both inverses; wide n incl. around 160/320/2047 bits; '
+            'Luby-Rackoff: all 65536 two-byte messages, even lengths 2..64 sampled; all length contracts.',
+            '3 keys per width; wide widths use 20 DRBG inputs.', 'DESIGN.md 4/C15'),
+    'C16': ('E1', 'bounded-exhaustive enumeration vs independent RFC 5246 P_hash and counter-mode references',
+            'quick: boundary grid of key/message/output lengths per digest; thorough: the full 81x201x200 box per digest; TLS 1.2 vector anchors '
+            'reference and implementation; 2000-pair distinctness; contracts.',
+            'hashlib/hmac are the trusted base.', 'DESIGN.md 4/C16'),
+    'C17': ('E1', 'bounded-exhaustive enumeration of sizes/capacities/lengths/compositions',
+            'Block partition/parse round trips over (identifier size, capacity, list length, block size) grids (thorough: all 40x70 x dense '
+            'lengths), ALL compositions of lengths <=9 (12) for split, all widths 0..41 for int conversions, XOR, hex database formats.',
+            'Identifier bytes are DRBG values plus awkward members.', 'DESIGN.md 4/C17'),
     'C18': ('E1', 'bounded-exhaustive enumeration vs list-of-bits reference model',
             'Every Bitset operation named by the property is executed for every value of every length 0..8 (all operand pairs for '
             'binary operators, all shifts, all k, all slices) and for boundary/DRBG values of lengths 9..300, and compared with an '
             'MSB-first list-of-bits model; exhaustive inside the stated bounds, nothing sampled below length 9.',
             'Trusts the 30-line list model; lengths above 8 are covered by boundary values (0,1,2^k-1,2^k,2^k+1) plus 3 DRBG values per length only.',
             'DESIGN.md 4/C18'),
+    'C19': ('E2', 'explicit-state BFS to fixpoint over the real array + undeduplicated depth-bounded DFS, list reference model',
+            'For every (len<=3 (4), item_size<=2 (3), items_per_file<=len+2): every event of a ~3k-event alphabet (all indices, all raw slices, '
+            'all bad-element positions, close/reopen) applied to every reachable canonical state; all histories to depth 3 (4) on larger '
+            'configurations without dedup.',
+            'Fixpoint only for small arrays; lengths up to 40 only by depth-bounded search (thorough).', 'DESIGN.md 4/C19'),
+    'C20': ('E2', 'explicit-state BFS to fixpoint over the real dictionaries + undeduplicated depth-bounded DFS, dict reference model',
+            'PickledDict full life cycle and DBMDict within one session: every event applied to every reachable (ordered items, closed) state '
+            'over 3 (4) keys x 3 values; all histories to depth 4 (5) without dedup; from_dict independence for every sub-dictionary.',
+            'dbm.dumb only; DBMDict reopen is outside the property.', 'DESIGN.md 4/C20'),
 }
 
 NOT_YET = {}
